@@ -28,3 +28,82 @@ Theorem C09_find_returns_when_defined :
   exists F, forall fuel, F <= fuel -> exists M, find_matches fuel (compile r 0) text true 0 0 0 = SOk M.
 Proof. exact C09_find_defined_lemma. Qed.
 Print Assumptions C09_find_returns_when_defined.
+
+(* Unconditionally.  The theorems above hold wherever the specification is defined.  This one assumes nothing about
+   the search: for every well-formed resolved pattern - atoms are text-matching instructions, `in` lists are not empty,
+   `not in` sizes are not negative, calls go to subroutines of the pattern, predicates do not crash - the compiled code
+   never crashes the VM: no command shape, text or step budget makes `find` end in a crash.  Named loops,
+   back-references, unguarded (even left-) recursion and non-terminating searches are included: those run out of fuel,
+   they do not crash.  (Proof: continuation-passing and step-indexed - a piece of code is safe for n steps if whatever
+   follows it is; loops and recursive calls re-enter code with fewer steps left.) *)
+From Proofs Require SafeCode.
+Theorem C09_well_formed_code_never_crashes :
+  forall r text fuel all skip take last w,
+  SafeCode.wf (defs_of r) r -> find_matches fuel (compile r 0) text all skip take last <> SCrash w.
+Proof. exact SafeCode.find_never_crashes_lemma. Qed.
+Print Assumptions C09_well_formed_code_never_crashes.
+
+(* ... and the hypothesis holds of everything the generator resolves: for EVERY source text the parser accepts, every
+   pattern the generator resolves from the parsed program is well formed - every call goes to a subroutine that sits, at
+   that very program counter, inside the same pattern; `not in` sizes are not negative (the parser builds lists of strings,
+   ranges and one-character classes with at least one item) - provided the predicates of stored patterns do not crash
+   (the known findings K23 / K24 are exactly programs whose process code does). *)
+From Model Require Parser.
+From Proofs Require ResolveWf ParseSizesOk ParseListsOk FrontTotal.
+Theorem C09_generated_patterns_well_formed :
+  forall src cs xs, Parser.parse_source src = Parser.FOk cs -> Forall ResolveWf.preds_ok_c cs ->
+  resolve_program cs init_gstate = GOk xs ->
+  Forall (fun x => match x with Some r => SafeCode.wf (defs_of r) r | None => True end) xs.
+Proof.
+  intros src cs xs Hp Hpr Hr. destruct (FrontTotal.no_partial_tree_lemma src cs Hp) as (ts & _ & Hts).
+  apply (ResolveWf.resolve_program_wf_lemma cs init_gstate xs); auto.
+  - exact (ParseListsOk.parse_lists_ok_lemma ts cs Hts).
+  - exact (ParseSizesOk.parse_sizes_ok_lemma ts cs Hts).
+  - exact ResolveWf.init_gs2_ok.
+Qed.
+Print Assumptions C09_generated_patterns_well_formed.
+
+(* Together: for every source text Compile accepts (whose stored predicates, if any, do not crash), for every find or
+   replace command of it, every text, every step budget: the search never crashes - whether or not it terminates. *)
+Theorem C09_accepted_programs_never_crash :
+  forall src cs xs, Parser.parse_source src = Parser.FOk cs -> Forall ResolveWf.preds_ok_c cs ->
+  resolve_program cs init_gstate = GOk xs ->
+  forall r, In (Some r) xs -> forall text fuel all skip take last w,
+  find_matches fuel (compile r 0) text all skip take last <> SCrash w.
+Proof.
+  intros src cs xs Hp Hpr Hr r Hin text fuel all skip take last w.
+  pose proof (C09_generated_patterns_well_formed src cs xs Hp Hpr Hr) as Hall. rewrite Forall_forall in Hall.
+  apply SafeCode.find_never_crashes_lemma. exact (Hall (Some r) Hin).
+Qed.
+Print Assumptions C09_accepted_programs_never_crash.
+
+(* non-vacuity: {at least 0 ('a' = x) named n  s  x} = s  - a named loop, a left-recursive call without a guard and a
+   back-reference: well formed, so it never crashes (it never terminates either) *)
+Definition ex9_body : rx :=
+  XSeq (XLoop 0 0 (-1) false [110]%N (XDec [120]%N (XAtom (IMatchLit false false [97]%N))))
+  (XSeq (XCall [115]%N 0) (XSeq (XRef [120]%N) XEps)).
+Definition ex9 : rx := XSeq (XSub [115]%N ex9_body PNil) XEps.
+Example C09_wf_witness : SafeCode.wf (defs_of ex9) ex9.
+Proof.
+  cbn [SafeCode.wf ex9 ex9_body]. split; [|exact I]. split; [apply SafeCode.pred_safe_nil|].
+  split; [exact I|]. split; [eexists _, _; reflexivity|]. split; exact I.
+Qed.
+
+(* ---- the full statement of C09 is FALSE of the faithful model: the two known findings, as theorems.
+   The property says "for every program that Compile accepts and every input ... no panic"; these two accepted
+   programs crash (the witnesses are what the check replays on the implementation: K23, K24). ---- *)
+From Model Require Front.
+
+Definition k23_source : list N := [115; 101; 116; 32; 102; 32; 116; 111; 32; 116; 114; 97; 110; 115; 102; 111; 114; 109; 32; 114; 101; 116; 117; 114; 110; 32; 49; 32; 47; 32; 48; 32; 101; 110; 100; 32; 114; 101; 112; 108; 97; 99; 101; 32; 97; 108; 108; 32; 39; 97; 39; 32; 119; 105; 116; 104; 32; 102]%N.
+(* set f to transform return 1 / 0 end replace all 'a' with f *)
+Theorem C09_refuted_division_by_zero :
+  exists bc, Front.compile_source k23_source = Front.COk bc /\ run_commands vm_fuel_default [97]%N bc = RCrash CrDivZero.
+Proof. eexists. split; [vm_compute; reflexivity|]. vm_compute. reflexivity. Qed.
+Print Assumptions C09_refuted_division_by_zero.
+
+Definition k24_source : list N := [115; 101; 116; 32; 102; 32; 116; 111; 32; 116; 114; 97; 110; 115; 102; 111; 114; 109; 32; 105; 102; 32; 109; 97; 116; 99; 104; 32; 61; 61; 32; 39; 97; 39; 32; 116; 104; 101; 110; 32; 115; 101; 116; 32; 120; 32; 116; 111; 32; 116; 114; 117; 101; 32; 101; 108; 115; 101; 32; 115; 101; 116; 32; 120; 32; 116; 111; 32; 39; 113; 39; 32; 101; 110; 100; 32; 114; 101; 116; 117; 114; 110; 32; 120; 32; 45; 32; 49; 32; 101; 110; 100; 32; 114; 101; 112; 108; 97; 99; 101; 32; 97; 108; 108; 32; 97; 110; 121; 32; 119; 105; 116; 104; 32; 102]%N.
+(* set f to transform if match == 'a' then set x to true else set x to 'q' end return x - 1 end replace all any with f *)
+Theorem C09_refuted_branch_dependent_type :
+  exists bc, Front.compile_source k24_source = Front.COk bc /\ run_commands vm_fuel_default [97]%N bc = RCrash CrUndefinedOp.
+Proof. eexists. split; [vm_compute; reflexivity|]. vm_compute. reflexivity. Qed.
+Print Assumptions C09_refuted_branch_dependent_type.
